@@ -379,6 +379,9 @@ class RefSim:
         self.pause_on_fault = pause_on_fault
         self.state = "INIT"
         self.nexec = 0
+        # has a listener been told about the current clock value?  (not after
+        # a bounded run moved the clock to its bound)
+        self.announced = True
 
     def expect(self, outcome, spec=True, **kw):
         d = dict(outcome=outcome, trace=list(self.ref.trace),
@@ -397,6 +400,7 @@ class RefSim:
             nxt = ref.peek()
             if nxt is not None and nxt[0] <= self.end:
                 tag = ref.step()
+                self.announced = True
                 if tag != "W":
                     self.nexec += 1
             else:
@@ -404,6 +408,7 @@ class RefSim:
             self.state = "STOPPED"
             return self.expect("ok", spec)
         spec = True
+        beyond = False
         pause_k = None
         pause_tc = None
         if k in ("start", "pause_at", "pause_tc"):
@@ -416,6 +421,7 @@ class RefSim:
             bound, incl = piece[1], (k == "uptoi")
             if bound < ref.clock or bound > self.end:
                 spec = False
+            beyond = bound > self.end and bound >= ref.clock
             if bound > self.end:
                 bound, incl = self.end, True
         paused = False
@@ -425,7 +431,8 @@ class RefSim:
             if e[0] > bound or (e[0] == bound and not incl):
                 break
             stop_here = False
-            if e[0] != ref.clock:
+            if e[0] != ref.clock or not self.announced:
+                self.announced = True
                 # the run announces a time change; a listener may stop there:
                 # the announced event still runs, then the run pauses
                 if pause_tc is not None and ntc == pause_tc:
@@ -450,9 +457,13 @@ class RefSim:
             return self.expect("ok", spec, paused=True)
         if bound > ref.clock:
             ref.clock = bound
+            self.announced = False
         self.state = "ENDED" if (bound >= self.end and incl) else "STOPPED"
+        # a bound beyond the end: which events run is specified (all of them
+        # up to and including the end), the state and clock afterwards are not
         return self.expect("ok", spec, paused=False,
-                           may_end=(k == "upto" and piece[1] == self.end))
+                           may_end=(k == "upto" and piece[1] == self.end),
+                           trace_spec=(k in ("upto", "uptoi") and beyond))
 
 
 def issue(sim, s, model, piece, T, base=None):
